@@ -54,6 +54,9 @@ def generate_output_configuration(commandLineArguments, oConfig):
         dOutputConfiguration["indent"] = configuration["indent"]
         dOutputConfiguration["pragma"] = {}
         dOutputConfiguration["pragma"]["patterns"] = configuration["pragma"]["patterns"]
+        for sKey in ("severity", "skip_phase", "file_rules", "linesep"):
+            if sKey in configuration:
+                dOutputConfiguration[sKey] = configuration[sKey]
         with open(commandLineArguments.output_configuration, "w") as json_file:
             json.dump(dOutputConfiguration, json_file, sort_keys=True, indent=2)
         sys.exit(fExitStatus)
